@@ -553,6 +553,88 @@ func caseBig(in bigIn, wantCoq bool) (coq string, msg string) {
 	return coq, msg
 }
 
+// relay path with an extension near the 10-bit limit: a packet with Ext0 bytes of extension is
+// received, the relay appends Add more bytes (sendToFriends), writes it, and further packets follow
+type relayIn struct {
+	P    pktJ   `json:"p"`   // ext = the extension as received
+	Add  string `json:"add"` // ids appended by the relay
+	Next []pktJ `json:"next"`
+}
+
+func caseRelay(in relayIn) (coqs []string, msg string) {
+	f := fromJ(in.P)
+	add, _ := hex.DecodeString(in.Add)
+	var next []F
+	for _, j := range in.Next {
+		next = append(next, fromJ(j))
+	}
+	var wire, relayedWire []byte
+	var announced int
+	perr := hxlib.Catch(func() {
+		// hop 1: the packet arrives
+		w1, _, e := writeAll([]F{f})
+		if e != "" {
+			panic(e)
+		}
+		pr := network.NewPacketReader(bytes.NewReader(w1))
+		pkt, err := pr.ReadPacket()
+		if err != nil {
+			panic("the packet with a " + fmt.Sprint(len(f.Ext)) + "-byte extension is not read back: " + err.Error())
+		}
+		// hop 2: relay
+		network.VerifC30RelayAppend(pkt, add)
+		announced = network.VerifC30AnnouncedExtLen(pkt)
+		var buf bytes.Buffer
+		pw := network.NewPacketWriter(&buf)
+		if err := pw.WritePacket(pkt); err != nil {
+			panic("WritePacket error: " + err.Error())
+		}
+		relayedWire = append([]byte(nil), buf.Bytes()...)
+		for _, nf := range next {
+			if err := pw.WritePacket(network.VerifC30NewPacket(nf)); err != nil {
+				panic("WritePacket error: " + err.Error())
+			}
+		}
+		wire = buf.Bytes()
+	})
+	if perr != "" {
+		return nil, "relaying a packet with a large extension panicked/failed: " + perr
+	}
+	res := readAll([][]byte{wire}, "bufio", false, false)
+	full := append(append([]byte(nil), f.Ext...), add...)
+	if want := hdrSize + len(f.Payload) + ftrSize + announced; len(relayedWire) != want {
+		msg = fmt.Sprintf("relayed packet: the footer announces an extension of %d bytes (accumulated %d) but %d bytes were written after the footer",
+			announced, len(full), len(relayedWire)-hdrSize-len(f.Payload)-ftrSize)
+	}
+	if msg == "" && res.Panic != "" {
+		msg = "reading the relayed stream panicked: " + res.Panic
+	}
+	if msg == "" && (len(res.Pkts) != 1+len(next) || res.Stop != 0) {
+		msg = fmt.Sprintf("stream of a relayed packet (extension %d+%d bytes) and %d more packets: %d packets read back, stop class %d",
+			len(f.Ext), len(add), len(next), len(res.Pkts), res.Stop)
+	}
+	for i := 0; msg == "" && i < len(next); i++ {
+		if !sameFields(res.Pkts[1+i], next[i]) {
+			msg = fmt.Sprintf("packet %d after the relayed packet was read back differently", i)
+		}
+	}
+	if msg == "" {
+		g := res.Pkts[0]
+		if g.Proto != f.Proto || g.Sub != f.Sub || !bytes.Equal(g.Src, f.Src) || g.Dest != f.Dest || g.TTL != f.TTL || !bytes.Equal(g.Payload, f.Payload) ||
+			len(g.Ext) != announced || !bytes.Equal(g.Ext, full[:announced]) {
+			msg = "the relayed packet was read back with other fields / extension than the announced prefix of the accumulated extension"
+		}
+	}
+	// model: the relayed packet has the whole accumulated extension and hint+1; encode writes ext[:len mod 1024]
+	m := f
+	m.Ext = full
+	m.Hint = f.Hint + 1
+	coqs = append(coqs, fmt.Sprintf("(CEnc (P %d %d %s %d %d %s %d %s) %s)", m.Proto, m.Sub, hxlib.CoqBytes(m.Src), m.Dest, m.TTL,
+		hxlib.CoqBytes(m.Payload), int(f.Hint)+1, hxlib.CoqBytes(m.Ext), hxlib.CoqBytes(relayedWire)))
+	coqs = append(coqs, fmt.Sprintf("(CStream %s %s %d)", coqChunks([][]byte{wire}), coqPkts(res.Pkts), res.Stop))
+	return coqs, msg
+}
+
 // ---------- gen ----------
 
 func gen(c *hxlib.Ctx) {
@@ -696,6 +778,31 @@ func gen(c *hxlib.Ctx) {
 				Key: fmt.Sprintf("%d/%d/%s", n, rep, j.Pat)})
 		}
 	}
+	// 5. relay hops that push the accumulated extension to / over the 10-bit length field
+	for i := 0; i < c.N(6); i++ {
+		f := randPacket(r, 8, 0)
+		n0 := []int{1012, 1016, 1020, 1020, 1023, 1000 + r.Intn(24)}[i%6]
+		f.Ext = randBytes(r, n0)
+		f.Hint = byte([]int{0, 1, 62, 63}[r.Intn(4)])
+		add := make([]byte, 4*(1+r.Intn(3)))
+		r.Read(add)
+		in := relayIn{P: toJ(f), Add: hex.EncodeToString(add)}
+		for k := 0; k < 1+r.Intn(3); k++ {
+			in.Next = append(in.Next, toJ(randPacket(r, 10, 4)))
+		}
+		coqs, msg := caseRelay(in)
+		for k, cq := range coqs {
+			m := ""
+			if k == 0 {
+				m = msg
+			}
+			c.Emit(hxlib.Case{Kind: "relay-ext-limit", Coq: cq, Input: map[string]interface{}{"t": "relayext", "v": in}, Nontrivial: true, OracleErr: m})
+		}
+		if len(coqs) == 0 {
+			c.Emit(hxlib.Case{Kind: "relay-ext-limit", Input: map[string]interface{}{"t": "relayext", "v": in}, Nontrivial: true, OracleErr: msg,
+				Key: fmt.Sprint("relayext", i)})
+		}
+	}
 	// canaries: wrong observations the model must flag
 	c.Emit(hxlib.Case{Kind: "canary", Canary: true, Coq: "(CStream [[1;2;3]] [] 1)"})
 	f := randPacket(rand.New(rand.NewSource(7)), 5, 0)
@@ -728,6 +835,11 @@ func replay(raw json.RawMessage) string {
 		json.Unmarshal(in.V, &v)
 		_, msg := caseCorrupt(v, nil)
 		return msg
+	case "relayext":
+		var v relayIn
+		json.Unmarshal(in.V, &v)
+		_, msg := caseRelay(v)
+		return msg
 	case "big":
 		var v bigIn
 		json.Unmarshal(in.V, &v)
@@ -741,7 +853,7 @@ func main() {
 	_ = strings.TrimSpace
 	hxlib.Main(hxlib.Spec{
 		ID: "C30",
-		Rule: "packets with random/boundary header fields (protocol, sub-protocol, 20-byte src, dest, ttl, extension hint and bytes) written with PacketWriter and read with PacketReader (buffered) and Packet.ReadFrom (unbuffered) over chunk readers: whole, 1 byte at a time, small/random chunks, empty reads, cuts inside headers and footers, data+EOF; streams of 0-4 packets, truncated streams, trailing garbage, over-limit length; every single-byte change of small packets (two new values per position); payload sizes 4095..65536 (1 MiB in the thorough tier) described by a repeated pattern; non-trivial = every case that contains at least one packet or malformed bytes; distinct = distinct Coq case term",
+		Rule: "packets with random/boundary header fields (protocol, sub-protocol, 20-byte src, dest, ttl, extension hint and bytes) written with PacketWriter and read with PacketReader (buffered) and Packet.ReadFrom (unbuffered) over chunk readers: whole, 1 byte at a time, small/random chunks, empty reads, cuts inside headers and footers, data+EOF; streams of 0-4 packets, truncated streams, trailing garbage, over-limit length; received packets with a 1000-1023 byte extension to which a relay hop appends 1-3 ids (sendToFriends) followed by more packets on the same stream; every single-byte change of small packets (two new values per position); payload sizes 4095..65536 (1 MiB in the thorough tier) described by a repeated pattern; non-trivial = every case that contains at least one packet or malformed bytes; distinct = distinct Coq case term",
 		Shard: 100,
 		Gen:   gen, Replay: replay,
 	})
